@@ -543,3 +543,30 @@ def mk_with_ignored(prefix):
 
 gc_with_ignored = mk_with_ignored("C10")
 CONTRACTS += [gi_sorted, gc_with_ignored]
+
+
+# Geometry.extend_to_size / Geometry.clip (the geometry helpers): the same call protocol - sizes are those of each row's OWN chromosome, not offsets
+# and not ends in concatenated coordinates.
+def _GEO():
+    from bionumpy.genomic_data.geometry import Geometry
+    return Geometry
+
+
+def _setup_geo(ctx):
+    st = _setup_loc("start", True)(ctx)
+    st.L = z3.Int("fragment_length")
+    st.selfv = SRec(_GEO(), _genome_context=SRec(None, global_offset=st.selfv._f["_genome_context"].get("global_offset")))
+    st.args = [st.iv, st.L]
+    return st
+
+
+geo_extend = Contract("C10.Geometry.extend_to_size", target=lambda: _GEO().extend_to_size, setup=_setup_geo,
+                      requires=lambda ctx, st: [st.m >= 0, Forall(lambda i: Implies(in_range(i, st.m), in_range(st.c0(i), st.n)), triggers=[st.c0], name="valid chromosome codes")],
+                      ensures=lambda ctx, st, ret: [("extend_to_size receives the table, the length and one size per row", st.ext_args[0] is st.iv and st.ext_args[1] is st.L),
+                                                    ("size.of.row.i.is.the.size.of.its.own.chromosome", Forall(lambda i: Implies(in_range(i, st.m), I(st.ext_args[2].at(i)) == st.size(st.c0(i))))),
+                                                    ("rows", I(st.ext_args[2].length) == st.m)],
+                      callees=dict(CALLEES, **{"bionumpy.streams.decorators.streamable.__call__.<locals>.new_func": _capture_extend,
+                                               "bionumpy.arithmetics.intervals.extend_to_size": _capture_extend}),
+                      canaries=[("end in concatenated coordinates instead of the size", "chrom_sizes = self._genome_context.global_offset.get_size(intervals.chromosome)\n        return extend_to_size",
+                                 "chrom_sizes = self._genome_context.global_offset.get_offset(intervals.chromosome)\n        return extend_to_size")])
+CONTRACTS.append(geo_extend)
